@@ -27,6 +27,65 @@ class NoFunctionRegisteredException(Exception):
     pass
 
 
+class AmbiguousMethodException(Exception):
+    pass
+
+
+class CollectionTooLargeException(Exception):
+    pass
+
+
+class Opts:
+    """the options of the engine a statement belongs to, as far as the collection functions and the finaliser look at
+    them (Opts of lean/Yaql/Model/SeqRun.lean): yaql.iterableDicts, convertTuplesToLists, convertSetsToLists,
+    convertInputData, limitIterators (None = never reached)"""
+    __slots__ = ('id', 'tl', 'sl', 'ci', 'lim')
+
+    def __init__(self, id=False, tl=True, sl=True, ci=True, lim=None):
+        self.id, self.tl, self.sl, self.ci, self.lim = id, tl, sl, ci, lim
+
+    def json(self):
+        return {'id': self.id, 'tl': self.tl, 'sl': self.sl, 'ci': self.ci, 'lim': self.lim}
+
+    @staticmethod
+    def of_json(j):
+        return Opts(j['id'], j['tl'], j['sl'], j['ci'], j['lim'])
+
+    def key(self):
+        return (self.id, self.tl, self.sl, self.ci, self.lim)
+
+    def __repr__(self):
+        return 'Opts(iterableDicts=%s, tuplesToLists=%s, setsToLists=%s, convertInput=%s, limit=%s)' % self.key()
+
+
+CUR = Opts()         # the options of the evaluation in progress (set by run_ref / run_obs)
+
+
+class FSet(list):
+    """a finalised set (the members in some order)"""
+
+
+def limit_sized(xs):
+    """limit_iterable over a sized collection: checked when the argument is converted"""
+    if CUR.lim is not None and len(xs) > CUR.lim:
+        raise CollectionTooLargeException()
+    return xs
+
+
+def limit_lazy(src):
+    """limit_iterable over an iterator: the element after the limit-th raises (if there is one)"""
+    lim = CUR.lim
+    if lim is None:
+        return src
+
+    def gen():
+        for i, t in enumerate(src):
+            if i >= lim:
+                raise CollectionTooLargeException()
+            yield t
+    return gen()
+
+
 class Stop(Exception):
     """the StopIteration with which first() / last() / single() / dict() fail.  Inside a lambda it has to reach
     the caller of the whole query like any other exception: a real StopIteration raised by a selector would be
@@ -143,7 +202,7 @@ def o_plus(a, b):
         d = dict(a)
         d.update(b)
         return FD(d)
-    if is_iterable(a) and is_iterable(b):
+    if is_iterable_arg(a) and is_iterable_arg(b):
         raise OOD()
     raise NoMatchingFunctionException('+')
 
@@ -243,12 +302,17 @@ def o_range(a):
 def seq_of(v):
     """the element of a collection as the receiver of first() / where() / ...: an iterable that is not a
     string or a dict"""
-    if isinstance(v, (tuple, list)) or is_iterator(v):
-        return iter(v)
+    if isinstance(v, (tuple, list)):
+        return iter(limit_sized(v))
+    if is_iterator(v):
+        return limit_lazy(iter(v))
     if isinstance(v, frozenset):
+        limit_sized(v)
         if len(v) > 1:
             raise OOD()       # iteration order of a nested set
         return iter(v)
+    if isinstance(v, dict) and CUR.id:
+        return iter(limit_sized(list(v)))
     raise NoMatchingMethodException()
 
 
@@ -408,22 +472,33 @@ def bad_receiver(o):
 
 
 def it(o, ordered=True):
-    """iterate a receiver declared Iterable(): lazily, once"""
+    """iterate a receiver declared Iterable(): lazily, once; under yaql.limitIterators a sized collection is checked at
+    once, an iterator when the element after the last allowed one is pulled"""
     if isinstance(o, Memo):
-        return iter(o)            # a fresh cursor
+        return limit_lazy(iter(o))            # a fresh cursor
     if isinstance(o, DSet):
+        limit_sized(o)
         if ordered and len(o) > 1:
             raise OOD()
         return iter(o)
     if isinstance(o, (tuple, list, frozenset)):
-        return iter(o)
+        return iter(limit_sized(o))
     if isinstance(o, View):
-        return iter(o.elems())
+        if o.kind == 'values':
+            return limit_lazy(iter(o.elems()))
+        return iter(limit_sized(o.elems()))
     if isinstance(o, Ordering):
-        return sort_lazily(o)
+        return limit_lazy(sort_lazily(o))
     if is_iterator(o):
-        return o
+        return limit_lazy(o)
+    if isinstance(o, dict) and CUR.id:
+        return iter(limit_sized(list(o)))     # yaql.iterableDicts: a dictionary is the collection of its keys
     bad_receiver(o)
+
+
+def is_iterable_arg(x):
+    """accepted by a parameter declared Iterable()"""
+    return is_iterable(x) or isinstance(x, dict) and CUR.id
 
 
 def sort_lazily(o):
@@ -541,7 +616,11 @@ class Ref:
         if isinstance(o, str):
             raise OOD()
         if isinstance(o, (tuple, list, frozenset)) or isinstance(o, View) and o.kind != 'values':
+            limit_sized(o if not isinstance(o, View) else o.d)
             return o
+        if isinstance(o, dict) and CUR.id:
+            limit_sized(o)
+            return o                   # (a sized collection is handed back as it is - also a dictionary)
         return Memo(it(o))
 
     def _reduce(self, o, f, init):
@@ -834,7 +913,8 @@ class Ref:
 
     def defaultIfEmpty(self, o, a):
         src = it(o, ordered=False)
-        if isinstance(o, (tuple, list, frozenset)) or isinstance(o, View) and o.kind != 'values':
+        if isinstance(o, (tuple, list, frozenset)) or isinstance(o, View) and o.kind != 'values' \
+                or isinstance(o, dict) and CUR.id:
             return a['vs'] if len(o if not isinstance(o, View) else o.d) == 0 else o
         if isinstance(o, Memo):
             src = iter(o)
@@ -904,6 +984,8 @@ class Ref:
     def flatten(self, o, a):
         def rec(xs):
             for x in xs:
+                if isinstance(x, DSet) and len(x) > 1:
+                    raise OOD()         # (iteration order of a set built during evaluation)
                 if isinstance(x, (tuple, list, frozenset)):
                     yield from rec(x)
                 else:
@@ -921,7 +1003,7 @@ class Ref:
     def dict(self, o, a):
         if isinstance(o, str):
             raise OOD()
-        if not is_iterable(o):
+        if not is_iterable_arg(o):
             raise NoMatchingFunctionException('dict')
         d = {}
         for t in it(o):
@@ -991,16 +1073,21 @@ class Ref:
 
     def _member(self, o, v):
         if isinstance(o, frozenset):
+            limit_sized(o)
+            return v in o
+        if isinstance(o, dict) and CUR.id:
+            limit_sized(o)
             return v in o
         if isinstance(o, View):
             if o.kind == 'keys':
+                limit_sized(o.d)
                 return v in o.d
             if o.kind == 'items':
                 raise OOD()
         return any(x == v for x in it(o))
 
     def contains(self, o, a):
-        if not is_iterable(o):
+        if not is_iterable_arg(o):
             bad_receiver(o)
         return self._member(o, a['v'])
 
@@ -1033,7 +1120,7 @@ class Ref:
             return DSet(x | y)
         if isinstance(x, dict) and isinstance(y, dict):
             return FD(itertools.chain(x.items(), y.items()))
-        if is_iterable(x) and is_iterable(y):
+        if is_iterable_arg(x) and is_iterable_arg(y):
             for z in (x, y):        # a set literal is a set built during evaluation
                 if isinstance(z, frozenset) and not isinstance(z, DSet) and z is not self._recv and len(z) > 1:
                     raise OOD()
@@ -1059,6 +1146,8 @@ class Ref:
     def delete(self, o, a):
         args = a['vs']
         if isinstance(o, dict):
+            if CUR.id and len(args) in (1, 2) and all(isinstance(t, int) for t in args):
+                raise AmbiguousMethodException()     # delete(position[, count]) of a collection fits as well
             for k in args:
                 hash(k)
             return {k: v for k, v in o.items() if not any(k == t for t in args)}
@@ -1072,7 +1161,9 @@ class Ref:
     def deleteAll(self, o, a):
         if not isinstance(o, dict):
             bad_receiver(o)
-        return self.delete(o, a)
+        for k in a['vs']:
+            hash(k)
+        return {k: v for k, v in o.items() if not any(k == t for t in a['vs'])}
 
     def _replace(self, o, pos, vals, count):
         hi = pos + count if count >= 0 else float('inf')
@@ -1230,7 +1321,7 @@ class Ref:
             def f(o, a):
                 if isinstance(o, str):
                     raise OOD()
-                if not is_iterable(o):
+                if not is_iterable_arg(o):
                     raise NoMatchingFunctionException('in')
                 return self._member(o, a['v'])
             return f
@@ -1271,43 +1362,147 @@ def no_lazies(o):
     return o
 
 
-def run_lazy(data, ops, binder=None):
-    """as run_ref, but the result is handed out as it is (a lazy iterator stays unconsumed)"""
+def apply_op(o, op):
+    """one stage applied to a run-time object"""
+    name = op['op']
+    if name not in LINEAR:
+        o = no_lazies(o)
+    return getattr(REF, 'in_' if name == 'in' else name)(o, op)
+
+
+def convert_input(v):
+    """utils.convert_input_data as documented: sequences become (immutable) tuples, mappings frozen dictionaries, sets
+    frozen sets, the members of an iterator are converted as they are pulled"""
+    if isinstance(v, (tuple, list)):
+        return tuple(convert_input(x) for x in v)
+    if isinstance(v, dict):
+        return FD((convert_input(k), convert_input(x)) for k, x in v.items())
+    if isinstance(v, (set, frozenset)):
+        return frozenset(convert_input(x) for x in v)
+    if is_iterator(v):
+        return map(convert_input, v)
+    return v
+
+
+def run_lazy(data, ops, binder=None, opts=None):
+    """as run_ref, but the result is handed out as it is (a lazy iterator stays unconsumed).  `data` is the document in
+    the form `$` is bound to (see bind_input)"""
+    global CUR
+    CUR = opts or Opts()
     o = data
     if binder is not None:
-        o = getattr(REF, binder['op'])(o, binder)
+        o = apply_op(o, binder)
     REF.root = o
     for op in ops:
-        name = op['op']
-        if name not in LINEAR:
-            o = no_lazies(o)
-        o = getattr(REF, 'in_' if name == 'in' else name)(o, op)
+        o = apply_op(o, op)
     return o
 
 
-def run_ref(data, ops, binder=None):
-    """data: runtime value (tuple / FD / frozenset / iterator); returns the finalised result.
+def run_ref(data, ops, binder=None, opts=None):
+    """data: runtime value (tuple / FD / frozenset / iterator; lists / plain dicts / sets when the engine does not
+    convert its input); returns the finalised result.
     binder: the op of `let(binder($)) -> ...` that rebinds `$` (memorize / defaultIfEmpty)"""
-    return finalise(run_lazy(data, ops, binder))
+    return finalise(run_lazy(data, ops, binder, opts))
+
+
+# ---- programs that look at the operand of a persistent update again (Obs of Model/SeqRun.lean)
+
+def rereadable(o):
+    """can a variable bound to it be read several times?  (a one-shot iterator cannot, and a generator inside a
+    collection is consumed by whoever reads it first)"""
+    if isinstance(o, Memo):
+        return True
+    if is_iterator(o) or isinstance(o, Ordering):
+        return False
+    if isinstance(o, View):
+        return not has_lazy(o.d)
+    if isinstance(o, frozenset):
+        return not any(has_lazy(x) for x in o)
+    return not has_lazy(o)
+
+
+def upd_elem(u, x):
+    if has_lazy(x):
+        raise OOD()
+    return apply_op(x, u)
+
+
+def run_obs(data, ops, binder, obs, opts=None):
+    """the finalised result of an observing program around the pipeline's result `x`:
+      letPair   [x.u, x]          letTwice  [x.u, x.u2, x]          letChain  y = x.u; [y.u2, y, x]
+      selPair   x.select([$.u, $])          memPair   m = x.memorize(); [m.select($.u).toList(), m.toList()]
+    An update is a function of its operand: the operand is the same afterwards."""
+    o = run_lazy(data, ops, binder, opts)
+    shape, u, u2 = obs['shape'], obs['u'], obs.get('u2')
+    if shape == 'selPair':
+        return finalise(map(lambda x: (upd_elem(u, x), x), it(o)))
+    if shape == 'memPair':
+        m = apply_op(o, {'op': 'memorize'})
+        first = tuple(map(lambda x: upd_elem(u, x), it(m)))
+        return finalise_parts([first, tuple(it(m))])
+    if not rereadable(o):
+        raise OOD()
+    if shape == 'letPair':
+        return finalise_parts([apply_op(o, u), o])
+    if shape == 'letTwice':
+        a = apply_op(o, u)
+        b = apply_op(o, u2)
+        return finalise_parts([a, b, o])
+    if shape == 'letChain':
+        y = apply_op(o, u)
+        if not rereadable(y):
+            raise OOD()
+        return finalise_parts([apply_op(y, u2), y, o])
+    raise ValueError(shape)
+
+
+def finalise_parts(parts):
+    """a list literal of run-time objects (a tuple), finalised"""
+    limit_sized(parts)
+    r = [finalise(p) for p in parts]
+    return r if CUR.tl else tuple(r)
+
+
+def out_hashable(f):
+    if isinstance(f, (list, dict)):        # (FSet is a list)
+        return False
+    if isinstance(f, tuple):
+        return all(out_hashable(x) for x in f)
+    return True
 
 
 def finalise(o):
-    """as evaluate() hands results out (sets stay sets here; dict keys must stay hashable)"""
+    """as evaluate() hands results out under the engine's options: tuples become lists unless convertTuplesToLists is off
+    (a mutable list is a list anyway), sets become lists with convertSetsToLists and sets otherwise (FSet marks one:
+    its members must be hashable then), iterators become lists, a dict's value is converted before its key and the
+    converted key must be hashable; every level passes the limiter first"""
     if isinstance(o, dict):
+        limit_sized(o)
         r = {}
         for k, v in o.items():
             fv = finalise(v)
             fk = finalise(k)            # (the key is converted as well - after the value: a generator among the keys is consumed)
-            if isinstance(fk, (tuple, list, dict)):
+            if not out_hashable(fk):
                 raise TypeError('unhashable')       # ... and a key that became a list cannot be a key
-            r[k] = fv
+            r[fk] = fv
         return r
     if isinstance(o, frozenset):
-        return ('set', [finalise(x) for x in o])
+        limit_sized(o)
+        r = FSet(finalise(x) for x in o)
+        if not CUR.sl and not all(out_hashable(x) for x in r):
+            raise TypeError('unhashable')
+        return r
     if isinstance(o, View):
         # documented: {"a" => 1, "b" => 2}.keys() -> ["a", "b"], .values() -> [1, 2], .items() -> [["a", 1], ["b", 2]]
-        return [finalise(x) for x in o.elems()]
-    if isinstance(o, (tuple, list)):
+        if o.kind == 'values':
+            return [finalise(x) for x in limit_lazy(iter(o.elems()))]
+        return [finalise(x) for x in limit_sized(o.elems())]
+    if isinstance(o, tuple):
+        limit_sized(o)
+        r = [finalise(x) for x in o]
+        return r if CUR.tl else tuple(r)
+    if isinstance(o, list):
+        limit_sized(o)
         return [finalise(x) for x in o]
     if isinstance(o, Ordering) or is_iterator(o):
         return [finalise(x) for x in it(o)]
@@ -1566,6 +1761,37 @@ def render(ops, binder=None, root='$'):
     if binder is not None:
         return 'let(%s) -> %s' % (render_op('$', binder), r)
     return r
+
+
+def render_obs(ops, binder, obs):
+    """the observing program around the pipeline P = render(ops)"""
+    _QUOTE[0] = 0
+    r = '$'
+    for a in ops:
+        r = render_op(r, a)
+    shape, u, u2 = obs['shape'], obs['u'], obs.get('u2')
+    if shape == 'letPair':
+        body = 'let(x => %s) -> [%s, $x]' % (r, render_op('$x', u))
+    elif shape == 'letTwice':
+        body = 'let(x => %s) -> [%s, %s, $x]' % (r, render_op('$x', u), render_op('$x', u2))
+    elif shape == 'letChain':
+        body = 'let(x => %s) -> let(y => %s) -> [%s, $y, $x]' % (r, render_op('$x', u), render_op('$y', u2))
+    elif shape == 'selPair':
+        body = '%s.select([%s, $])' % (r, render_op('$', u))
+    elif shape == 'memPair':
+        body = 'let(m => %s.memorize()) -> [$m.select(%s).toList(), $m.toList()]' % (r, render_op('$', u))
+    else:
+        raise ValueError(shape)
+    if binder is not None:
+        return 'let(%s) -> %s' % (render_op('$', binder), body)
+    return body
+
+
+def obs_json(obs, enc):
+    j = {'shape': obs['shape'], 'u': op_json(obs['u'], enc)}
+    if obs.get('u2') is not None:
+        j['u2'] = op_json(obs['u2'], enc)
+    return j
 
 
 # ------------------------------------------------------------------ JSON for the Lean driver
